@@ -114,7 +114,7 @@ def expected_run_events(names, num_scales):
 class C01:
     prop = "C01"
     level = "exploration"
-    budgets = {"quick": 3200, "thorough": 60000}
+    budgets = {"quick": 4000, "thorough": 60000}
     scenario_timeout = 300
 
     def generate(self, rnd, index, tier):
